@@ -275,9 +275,30 @@ def apply_edit(wire, e):
         parts.insert(i, UNK_NC)
     elif op == 'insc':
         parts.insert(i, UNK_C)
+    elif op in ('svext1', 'svext4', 'svcut1'):
+        # the forger's edit: only the signature VALUE changes; every length and the parameters digest are recomputed
+        k = kids[i]
+        value = wire[k[2]:k[3]]
+        value = value[:-1] if op == 'svcut1' else value + (b'\x00' if op == 'svext1' else bytes([0x30, 0x02, 0xAB, 0x00]))
+        parts[i] = st.write_var(k[0]) + st.write_var(len(value)) + value
+        out = rebuild(outer[0], parts)
+        return fix_digest(out) if outer[0] == 5 else out
     else:
         raise MachineryError('unknown edit %r' % op)
     return rebuild(outer[0], parts)
+
+
+def fix_digest(wire):
+    """Recompute the ParametersSha256Digest component of a well-formed Interest (hashlib over
+    ApplicationParameters..end) and write it in place."""
+    outer = st.read_elements(wire)[0]
+    kids = st.read_elements(wire, outer[2], outer[3])
+    apps = [k for k in kids if k[0] == 0x24]
+    pds = [c for c in st.read_elements(wire, kids[0][2], kids[0][3]) if c[0] == pk.T_PD]
+    if not apps or len(pds) != 1:
+        return wire
+    d = hashlib.sha256(wire[apps[0][1]:outer[3]]).digest()
+    return wire[:pds[0][2]] + d + wire[pds[0][3]:]
 
 
 def edits(ctx, cfg, exp, b, ver, rep_base):
@@ -289,6 +310,7 @@ def edits(ctx, cfg, exp, b, ver, rep_base):
         o = outcome(cfg, ver, t)
         n += 1
         judge_outcome(ctx, cfg, o, e['sig'], e['dig'], 'edit-%s-%s' % (e['lvl'], e['op']),
+                      'signature-value' if e['op'].startswith('sv') else
                       'covered' if e['sig'] == 'reject' else ('digest-covered' if e['dig'] == 'fail' else 'uncovered'),
                       dict(rep_base, edit=e, wire=b.wire.hex()))
     return n
@@ -327,6 +349,7 @@ def run(ctx):
         missing = [k for k in ('EitherRegion', 'EditEither', 'PdNotLast', 'EmptySig', 'OuterNarrows3to1') if wit.get(k) is not True]
         if missing:
             raise MachineryError('vacuous: situations not in the configuration space: %s' % missing)
+        sign_hist_stage_a(ctx)
     if 'B' in ctx.stages:
         lines, r = pk.gen(ctx, scale, 'c02')
         budget = tamper_budget(ctx)
@@ -386,6 +409,7 @@ def run(ctx):
         ctx.extra['tampered_wires_B'] = n_t
         ctx.note('B: %d signed/digest configurations range-checked, %d tampered wires judged (exhaustive on %s)' % (
             n_cfg, n_t, dict(('%s/%s' % k, v) for k, v in sorted(used.items()))))
+        sign_hist_stage_b(ctx, pool)
     if 'C' in ctx.stages:
         recs = []
         n = ctx.pick(300, 4000)
@@ -405,19 +429,135 @@ def run(ctx):
         ctx.evaluations += len(recs) + nt
         ctx.extra['tampered_wires_C'] = nt
         ctx.note('C: %d recorded packets (%d tampered wires) judged by TLC, %d rejected' % (len(recs), nt, len(rejected)))
-        names = {'5': 'signed-range', '6': 'signature-value-range', '7': 'digest-range', '8': 'digest-value-range',
-                 '9': 'tamper-verdict', '3': 'layout', '4': 'layout', '2': 'exception'}
-        for i, code in rejected:
-            rec = recs[i]
-            ctx.violation('C02/%s/%s/trace/%s' % (rec['cfg']['kind'], rec['cfg']['sg']['kind'], names.get(str(code).strip(), 'clause-%s' % code)),
-                          'recorded packet rejected by NdnPacketsTrace (clause %s = %s): cfg %s' % (
-                              code, names.get(str(code).strip()), json.dumps(rec['cfg'])[:500]),
-                          {'kind': 'trace', 'rec': rec, 'code': code})
+        report_trace_rejections(ctx, recs, rejected)
+        sign_hist_stage_c(ctx, pool)
 
 
-def record(ctx, cfg, pool):
-    """Stage C: build, observe the parser's ranges as offsets, tamper at random offsets, record outcomes."""
-    b = pk.build(cfg, ctx.rng, pool, target=False)
+def report_trace_rejections(ctx, recs, rejected):
+    names = {'5': 'signed-range', '6': 'signature-value-range', '7': 'digest-range', '8': 'digest-value-range',
+             '9': 'tamper-verdict', '3': 'layout', '4': 'layout', '2': 'exception'}
+    for i, code in rejected:
+        rec = recs[i]
+        ctx.violation('C02/%s/%s/trace/%s' % (rec['cfg']['kind'], rec['cfg']['sg']['kind'], names.get(str(code).strip(), 'clause-%s' % code)),
+                      'recorded packet rejected by NdnPacketsTrace (clause %s = %s): cfg %s' % (
+                          code, names.get(str(code).strip()), json.dumps(rec['cfg'])[:500]),
+                      {'kind': 'trace', 'rec': rec, 'code': code})
+
+
+# ---------------------------------------------------------------- signer-reuse histories (NdnPacketsSignHist)
+
+REUSE_KINDS = ['digest', 'hmac', 'ecdsa', 'rsa', 'ed25519', 'digestI']
+
+
+def reuse_sg(kind, rng):
+    sg = dict(pk.NO_SG, kind=kind, st=True)
+    sg['r'] = sg['a'] = {'digest': 32, 'digestI': 32, 'hmac': 32, 'rsa': 256, 'ed25519': 64, 'ecdsa': 72}[kind]
+    if kind == 'ecdsa':
+        sg['a'] = -1
+    if kind in ('hmac', 'rsa', 'ed25519', 'ecdsa'):
+        sg['haskl'] = True
+        sg['kl'] = [{'t': 8, 'l': 2}, {'t': 8, 'l': 3}, {'t': 8, 'l': 4}]
+    if kind == 'digestI':
+        sg['time'] = 8
+        sg['nonce'] = 8
+    return sg
+
+
+def run_sign_history(ctx, kind, kinds, pool, big=False):
+    """Sign the packets `kinds` (a sequence of 'data' / 'interest') with ONE signer object of class `kind`.
+    Every packet gets the full stage-C treatment. Returns (history record, packet records)."""
+    sg0 = reuse_sg(kind, ctx.rng)
+    kl = pk.name_bytes(sg0['kl'], ctx.rng) if sg0['haskl'] else None
+    inner = pk.make_inner(sg0, pool, kl)
+    ev, recs = [], []
+    for k in kinds:
+        if kind == 'digestI' and k != 'interest':
+            k = 'interest'
+        cfg = pk.rand_cfg(ctx.rng, k, maxc=4, big=big)
+        cfg['sg'] = json.loads(json.dumps(sg0))
+        if k == 'interest':
+            cfg['name'] = [c for c in cfg['name'] if c['t'] != pk.T_PD] if ctx.rng.random() < 0.7 else cfg['name']
+        rec = record(ctx, cfg, pool, live=(inner, kl), ntamper=4)
+        own = bool(rec and not rec['refused'] and rec.get('own'))
+        ev.append({'a': 'Sign', 'kind': k, 'own': own})
+        if rec and not rec['refused']:
+            recs.append(rec)
+    return {'signer': kind, 'ev': ev}, recs
+
+
+def judge_sign_histories(ctx, hists, recs, stage):
+    rej = pk.judge(ctx, 'NdnPacketsSignHistTrace', 'NdnPacketsSignHistTrace.cfg', [{'ev': h['ev']} for h in hists], 'c02-signhist-' + stage)
+    for i, at in rej:
+        h = hists[i]
+        k = int(str(at).strip() or 0)
+        e = h['ev'][k - 1] if 0 < k <= len(h['ev']) else {'kind': 'end'}
+        ctx.violation('C02/signer-reuse/%s/%s/packet-%s/signature-not-over-own-signed-portion' % (
+            h['signer'], e['kind'], 'first' if k == 1 else 'later'),
+            'packet #%d signed with one %s signer object is not verifiable over its own signed portion; events %s' % (k, h['signer'], h['ev']),
+            {'kind': 'sign-history', 'signer': h['signer'], 'kinds': [e_['kind'] for e_ in h['ev']], 'rejected_at': k})
+    rejected = pk.judge(ctx, 'NdnPacketsTrace', 'NdnPacketsTrace.cfg', recs, 'c02-signhist-pk-' + stage)
+    report_trace_rejections(ctx, recs, rejected)
+    return rej
+
+
+def sign_hist_stage_a(ctx):
+    cp = os.path.join(tlc.BUILD, 'NdnPacketsSignHist.cfg')
+    tlc.write_cfg(cp, constants={'MaxPk': ctx.pick(4, 6), 'DevAccum': 'FALSE'}, invariants=['OwnPortionOnly'])
+    r = tlc.run('NdnPacketsSignHist', cp, workers=1, heavy=False)
+    ctx.add_tlc('NdnPacketsSignHist', r)
+    if r.violated:
+        ctx.violation('C02/spec/NdnPacketsSignHist/%s' % r.violated, 'TLC: %s violated' % r.violated, {'trace': r.errtrace[:2000]})
+    tlc.write_cfg(cp, constants={'MaxPk': 3, 'DevAccum': 'TRUE'}, invariants=['OwnPortionOnly'])
+    if tlc.run('NdnPacketsSignHist', cp, workers=1, heavy=False).violated != 'OwnPortionOnly':
+        raise MachineryError('OwnPortionOnly does not refute the accumulating-context deviation')
+    tlc.write_cfg(cp, constants={'MaxPk': 3, 'DevAccum': 'FALSE'}, invariants=['W_Third'])
+    if tlc.run('NdnPacketsSignHist', cp, workers=1, heavy=False).violated != 'W_Third':
+        raise MachineryError('witness W_Third not reachable')
+
+
+def sign_hist_stage_b(ctx, pool):
+    from harness import graph
+    cp = os.path.join(tlc.BUILD, 'NdnPacketsSignHist_g.cfg')
+    m = ctx.pick(3, 4)
+    tlc.write_cfg(cp, constants={'MaxPk': m, 'DevAccum': 'FALSE'}, invariants=['OwnPortionOnly'])
+    g = graph.dump('NdnPacketsSignHist', cp, workers=1)
+    ctx.add_tlc('NdnPacketsSignHist graph MaxPk=%d (%d edges)' % (m, g.n_edges), g.tlc)
+    paths = graph.edge_cover_paths(g, max_len=m)
+    hists, recs = [], []
+    for init, path in paths:
+        kinds = [args[0] for a, args, _ in path]
+        for kind in REUSE_KINDS:
+            h, rs = run_sign_history(ctx, kind, kinds, pool)
+            hists.append(h)
+            recs += rs
+            ctx.traces += 1
+            ctx.evaluations += len(rs)
+            if len(kinds) >= 2:
+                ctx.nt(['B-reuse', kind, kinds])
+    rej = judge_sign_histories(ctx, hists, recs, 'B')
+    ctx.note('B: %d cover paths of the signer-reuse graph x %d signer classes: %d histories, %d packets, %d rejected' % (
+        len(paths), len(REUSE_KINDS), len(hists), len(recs), len(rej)))
+
+
+def sign_hist_stage_c(ctx, pool):
+    hists, recs = [], []
+    for k in range(ctx.pick(18, 300)):
+        kinds = [ctx.rng.choice(['data', 'interest']) for _ in range(ctx.rng.randint(3, ctx.pick(6, 12)))]
+        h, rs = run_sign_history(ctx, REUSE_KINDS[k % len(REUSE_KINDS)], kinds, pool, big=ctx.rng.random() < 0.1)
+        hists.append(h)
+        recs += rs
+        ctx.traces += 1
+        ctx.evaluations += len(rs)
+        ctx.nt(['C-reuse', h['signer'], kinds])
+    rej = judge_sign_histories(ctx, hists, recs, 'C')
+    ctx.note('C: %d random signer-reuse histories (%d packets) judged by TLC, %d rejected' % (len(hists), len(recs), len(rej)))
+
+
+def record(ctx, cfg, pool, live=None, ntamper=14):
+    """Stage C: build, observe the parser's ranges as offsets, tamper at random offsets, record outcomes.
+    live: (signer object, key locator) of a signer that is being reused. The record gets rec['own'] = the fresh
+    packet verifies (library verifier and PyCryptodome directly) over exactly its own signed portion."""
+    b = pk.build(cfg, ctx.rng, pool, target=False, live=live)
     if b.rec is not None and b.rec.actual is not None and cfg['sg']['kind'] == 'ecdsa':
         cfg['sg']['a'] = b.rec.actual
     if cfg['sg']['a'] < 0:
@@ -446,9 +586,23 @@ def record(ctx, cfg, pool):
            'signed': sg if signed(cfg) else [], 'digest': dg if need_digest(cfg) else [], 'sv': sv,
            'dv': dv if need_digest(cfg) else [], 'tampers': []}
     ver = Verifier(cfg, b, pool) if signed(cfg) else None
+    rec['own'] = True
+    if ver is not None and ver.has:
+        who = '%s/%s' % (cfg['kind'], cfg['sg']['kind'])
+        reuse = 'reused-signer' if live is not None else 'fresh-signer'
+        fresh = outcome(cfg, ver, wire)
+        own_ok = ver.independent(pk.slices(wire, sg), wire[sv[0]['lo']:sv[0]['hi']])
+        if not own_ok:
+            ctx.violation('C02/%s/verify/%s/signature-not-over-own-signed-portion' % (who, reuse),
+                          'PyCryptodome does not verify the SignatureValue over the signed portion of this packet', rep)
+        if not fresh['sigacc']:
+            ctx.violation('C02/%s/verify/%s/rejected-by-matching-verifier' % (who, reuse),
+                          'the matching verifier rejects the packet the signer has just produced', rep)
+        rec['own'] = bool(own_ok and fresh['sigacc'] and b.rec.covered == pk.slices(wire, sg))
     size = len(wire)
     pos = {ctx.rng.randrange(size) for _ in range(6)} | {ctx.rng.randrange(min(size, 120)) for _ in range(5)} \
         | {size - 1 - ctx.rng.randrange(min(size, 80)) for _ in range(3)}
+    pos = sorted(pos)[:ntamper] if ntamper < len(pos) else pos
     for p in sorted(pos):
         v = ctx.rng.choice([wire[p] ^ 0x01, wire[p] ^ 0x80, (wire[p] + ctx.rng.randrange(1, 256)) % 256])
         o = outcome(cfg, ver, wire[:p] + bytes([v]) + wire[p + 1:])
@@ -463,6 +617,14 @@ def replay(ctx, path):
     import random
     with open(path) as f:
         obj = json.load(f)
+    if obj.get('kind') == 'sign-history':
+        pool = pk.Pool(ctx.rng)
+        h, recs = run_sign_history(ctx, obj['signer'], obj['kinds'], pool)
+        print('one %s signer object signs %s ->' % (obj['signer'], obj['kinds']), h['ev'])
+        rej = judge_sign_histories(ctx, [h], recs, 'replay')
+        for v in ctx.violations:
+            print('reproduced:', v['sig'], '-', v['what'][:200])
+        return 1 if ctx.violations else 0
     if obj.get('kind') == 'trace':
         rej = pk.judge(ctx, 'NdnPacketsTrace', 'NdnPacketsTrace.cfg', [obj['rec']], 'c02-replay')
         print('recorded packet:', 'rejected by TLC %s' % rej if rej else 'accepted by TLC')
